@@ -320,7 +320,7 @@ func (u *UntrustedInputChecker) OnVisitNodeLeave(n ExprNode) {
 	case *IndexAccessNode:
 		if lit, ok := n.Index.(*StringNode); ok {
 			// Special case like github['event']['issue']['title']
-			u.onPropAccess(lit.Value)
+			u.onPropAccess(strings.ToLower(lit.Value)) // Property names are case insensitive
 			break
 		}
 		u.onIndexAccess()
